@@ -39,7 +39,7 @@ func readGsubSubtable(p *parser.Parser, pos int64, meta *LookupMetaInfo) (Subtab
 	}
 
 	reader, ok := gsubReaders[10*meta.LookupType+format]
-	if !ok {
+	if !ok || format > 9 {
 		return nil, &parser.InvalidFontError{
 			SubSystem: "sfnt/opentype/gtab",
 			Reason: fmt.Sprintf("unknown GSUB subtable format %d.%d",
